@@ -211,7 +211,11 @@ func checkC07(c *HandshakeCase) error {
 			return fmt.Errorf("attempt %d: harness could not serve %+v", i+1, st.dumpReq)
 		}
 		// deliveries continue the expectation (also guards the position bookkeeping of this check)
-		if err := compareTxs(st.got, exp[accepted:min(len(exp), accepted+len(st.got))], !c.EmptyName); err != nil {
+		expNow := exp[accepted:min(len(exp), accepted+len(st.got))]
+		if req, ok := st.dump(); ok && i > 0 && !c.EmptyName {
+			expNow = resumedLabels(l, expNow, hist.Pos{File: req.File, Off: int64(req.Pos)})
+		}
+		if err := compareTxs(st.got, expNow, !c.EmptyName); err != nil {
 			return fmt.Errorf("attempt %d: %v", i+1, err)
 		}
 		accepted += len(st.got)
